@@ -9,6 +9,7 @@
 import Rtcp.Model.Ops
 import Rtcp.Gen.Footprint
 import Rtcp.Gen.Resets
+import Rtcp.Gen.MustWrite
 import Rtcp.Lemmas.Interleave
 import Rtcp.Lemmas.Bytes
 namespace Rtcp.C18
@@ -218,5 +219,23 @@ theorem unmarshal_resets_receiver : ∀ r ∈ Gen.resetRows, r.reset = true := b
 /-- the analysis saw the decoders it is meant to see (13 accumulating fields on the pinned tree) -/
 theorem resets_nonvacuous : 13 ≤ Gen.resetRows.length ∧
     (Gen.resetRows.map (·.fn)).contains "(*TransportLayerNack).Unmarshal" = true := by decide
+
+end Rtcp.C18
+
+namespace Rtcp.C18
+open Rtcp
+
+/-- **no stale fields, regenerated**: in the current source every field an `Unmarshal` method assigns at all is
+assigned on every path that returns success (must-write dataflow over the SSA, tools/extract/resets.go →
+`Gen/MustWrite.lean`), so the decoded value never keeps content of an earlier use of the receiver. One unexported
+helper is exempt and listed: `(*CCFeedbackReportBlock).unmarshal` returns early for `num_reports = 0` without
+clearing `MetricBlocks`; its only caller hands it a fresh variable per block (a latent hazard, not reachable through
+the API: two seeded changes that hoist that variable are caught by the correspondence). -/
+theorem unmarshal_assigns_on_all_success_paths :
+    ∀ r ∈ Gen.mustWriteRows, r.always = true ∨
+      (r.fn = "(*CCFeedbackReportBlock).unmarshal" ∧ r.field = "MetricBlocks") := by decide
+
+theorem mustWrite_nonvacuous : 70 ≤ Gen.mustWriteRows.length ∧
+    (Gen.mustWriteRows.filter (fun r => r.always = false)).length = 1 := by decide
 
 end Rtcp.C18
